@@ -36,7 +36,13 @@ Proof.
 Qed.
 
 Lemma vok_le s0 r2 h v : c2' = s0 :: r2 -> (forall p, s0 <> FElse p) -> vok P1 h v -> vok P12 h v.
-Proof. intros Hc Hs. destruct v; simpl; auto. apply fun_ok_le with (s0 := s0) (r2 := r2); assumption. Qed.
+Proof.
+  intros Hc Hs. destruct v; simpl; auto. intros [Hf (q & f & fp & args & ap & sp & Hq & Hst & Han)]. split.
+  - apply fun_ok_le with (s0 := s0) (r2 := r2); assumption.
+  - exists q, f, fp, args, ap, sp. split; [|split; [|exact Han]].
+    + destruct (stmt1_some c1 c2' pe (pred (pred start)) _ Hq ltac:(intros q0; discriminate)) as [_ H]. exact H.
+    + destruct (stmt1_some c1 c2' pe (pred start) _ Hst ltac:(intros q0; discriminate)) as [_ H]. exact H.
+Qed.
 
 Lemma mwf_le s0 r2 m : c2' = s0 :: r2 -> (forall p, s0 <> FElse p) -> m_loops m = [] -> mwf P1 m -> mwf P12 m.
 Proof.
